@@ -92,7 +92,11 @@ func c04GenHistory(rng *lib.Rng, all []c04Shape) []c04HStep {
 		for try := 0; ; try++ {
 			sh := all[rng.Intn(len(all))]
 			if len(sh.keys) > 0 || try > 3 || rng.Chance(25) {
-				return c04Rename(sh, rng.Intn(3))
+				out := c04Rename(sh, rng.Intn(3))
+				if rng.Chance(25) {
+					out.mcase = 1 + rng.Intn(3) // markers re-spelled (&OPTIONAL, &Key, &aUx) in this definition
+				}
+				return out
 			}
 		}
 	}
